@@ -33,7 +33,11 @@ Inductive code :=
   | KGet (x : nat) (r : nat) (k : code)              (* Store register r -> slot x *)
   | KInc (r : nat) (k : code)                        (* r := r + 1 (wrapped), the phi's back-edge input *)
   | KRCJ (c : cond) (a b : rop) (yes no : code)      (* CJump on registers / constants *)
-  | KStuck.                                          (* block without terminator *)
+  | KStuck                                           (* block without terminator *)
+  | KCall (x : nat) (f : nat) (args : list exp) (k : code).   (* FunctionCall f(args); Store result -> slot x *)
+
+(* the functions of the module: number -> (number of extra local slots, code of the body) *)
+Variable ftab : nat -> option (nat * code).
 
 Fixpoint set_nth (x : nat) (v : Z) (env : list Z) : option (list Z) :=
   match x, env with
@@ -68,13 +72,19 @@ Inductive runs : list code -> list Z -> (nat -> Z) -> code -> Z -> Prop :=
       runs ls env (updr rg r (wrapc (rg r + 1))) k v -> runs ls env rg (KInc r k) v
   | R_rcj ls env rg c a b yes no v :
       runs ls env rg (if eval_cond c (ropv rg a) (ropv rg b) then yes else no) v ->
-      runs ls env rg (KRCJ c a b yes no) v.
+      runs ls env rg (KRCJ c a b yes no) v
+  (* arguments left to right, the callee runs on its own slots (parameters, then zeroed locals) and
+     its own registers, outside every loop of the caller; the result is stored to slot x *)
+  | R_call ls env rg x f args k v vs nloc cf rv env' :
+      Forall2 (fun e a => evale env e = ODone a) args vs -> ftab f = Some (nloc, cf) ->
+      runs [] (vs ++ repeat 0 nloc) (fun _ => 0) cf rv -> set_nth x rv env = Some env' ->
+      runs ls env' rg k v -> runs ls env rg (KCall x f args k) v.
 
 (* the jumps of c that are not under a loop head of c itself stay inside d enclosing loops *)
 Fixpoint top_ok (d : nat) (c : code) : Prop :=
   match c with
   | KRet _ | KStuck => True
-  | KStore _ _ k | KSet _ _ k | KGet _ _ k | KInc _ k => top_ok d k
+  | KStore _ _ k | KSet _ _ k | KGet _ _ k | KInc _ k | KCall _ _ _ k => top_ok d k
   | KCJ _ _ _ y n | KRCJ _ _ _ y n => top_ok d y /\ top_ok d n
   | KLoop l _ => (l <= d)%nat
   | KBack l => (l < d)%nat
@@ -83,7 +93,7 @@ End Code.
 
 Arguments KRet {exp}. Arguments KStore {exp}. Arguments KCJ {exp}. Arguments KLoop {exp}.
 Arguments KBack {exp}. Arguments KSet {exp}. Arguments KGet {exp}. Arguments KInc {exp}.
-Arguments KRCJ {exp}. Arguments KStuck {exp}. Arguments top_ok {exp}.
+Arguments KRCJ {exp}. Arguments KStuck {exp}. Arguments KCall {exp}. Arguments top_ok {exp}.
 
 (* rendering, for the structural comparison with the decompiled front-end output *)
 From PV Require Import Lib.Val.
@@ -105,6 +115,7 @@ Fixpoint code_val (c : code exp) : val :=
   | KInc r k => VT [VS "inc"; toval r; code_val k]
   | KRCJ c a b y n => VT [VS "rcj"; VS (cond_name c); rop_val a; rop_val b; code_val y; code_val n]
   | KStuck => VS "stuck"
+  | KCall x f args k => VT [VS "call"; toval x; toval f; VL (map exp_val args); code_val k]
   end.
 End Render.
 Arguments code_val {exp}.
